@@ -32,6 +32,16 @@ def gen(tier, rng):
                     calls = [[step, 100000, flush, 1] for _ in range(len(inp) // step + 1)]
                     add(api="deflate", inp=inp, level=level, wrap=wrap, hist_bits=hb, table=table, lbuf=lbuf, calls=calls, meta={"cls": cls, "cpu": cpu})
                 k += 1
+    # constant 0x00 / 0xFF input of EVERY length in a range, one-shot: the repeated-character fast path picks its codes by
+    # (length-1) mod 258, so every residue must be visited (long runs are cheap for the TLA+ decoder)
+    lens = list(range(8, 540)) + [747, 1263, 4095, 4096, 4097] + (list(range(540, 3000)) + list(range(65500, 66300, 1)) if tier == "thorough" else [65505, 65535, 65536 + 230])
+    for i, n in enumerate(lens):
+        add(api="deflate_stateless", inp=[0, 255][i % 2] and [255] * n or [0] * n, level=i % 4, wrap=wraps[(i // 4) % 5], lbuf=3, calls=[[n, n + 400, 0, 1]],
+            meta={"cls": "constant", "cpu": CPUS[i % len(CPUS)]})
+        if i % 2 == 0:     # and a leading run followed by other data
+            tail = igz.corpus(rng, "text", 40)
+            add(api="deflate_stateless", inp=[[0, 255][(i // 2) % 2]] * (4096 + n) + tail, level=(i // 2) % 4, wrap=wraps[(i // 3) % 5], lbuf=3, calls=[[4096 + n + 40, 6000 + n, 0, 1]],
+                meta={"cls": "constant-prefix", "cpu": CPUS[(i + 1) % len(CPUS)]})
     # large inputs: stored-block splitting at 65535, 16-bit hash position wrap, internal buffer wrap
     big = [("random", 70000, 0), ("periodic", 200000, 2), ("text", 66000, 1), ("records", 36000 if tier == "quick" else 140000, 3)]
     if tier == "thorough":
